@@ -60,6 +60,7 @@ def main(argv=None):
     try:
         mod = load_module(prop)
         report = mod.main(ctx)
+        common.run_mixed(ctx, mod, report)
         return common.finish(ctx, report, mod.LEVEL,
                              getattr(mod, "replay", None))
     except common.OracleBroken as e:
